@@ -422,6 +422,148 @@ pub fn dispatch(cmd: &str, a: &std::collections::HashMap<String, String>) -> Opt
     match cmd {
         "decode" => Some(batch(&out, &tier, seed)),
         "decode-tl" => Some(batch_tl(&out, &tier, seed)),
+        "codec-extra" => Some(codec_extra()),
         _ => None,
     }
+}
+
+// ------------------------------------------------------------------------------------------------
+// extras (evidence only, NOT part of what the specification decides): bounded enumeration of byte
+// strings through the derived decoder, round trips of boundary values of the built-in conversions
+// ------------------------------------------------------------------------------------------------
+fn rt<T: ractor::BytesConvertable + PartialEq + Clone + 'static>(v: T) -> bool {
+    std::panic::catch_unwind(std::panic::AssertUnwindSafe(|| T::from_bytes(v.clone().into_bytes()) == v)).unwrap_or(false)
+}
+
+pub fn codec_extra() -> Value {
+    // call variants bridge their reply port through a spawned task: a runtime must be current
+    let rt = tokio::runtime::Builder::new_current_thread().enable_all().build().expect("rt");
+    let _g = rt.enter();
+    codec_extra_inner()
+}
+
+fn codec_extra_inner() -> Value {
+    use ractor::BytesConvertable;
+    let variants = ["Tick", "Text", "Boom", "Unit", "Ask", "Nope", ""];
+    let mut inputs: Vec<Vec<u8>> = vec![vec![]];
+    // (i) every byte string of length <= 3 over a small alphabet
+    let alpha = [0x00u8, 0x01, 0x04, 0x08, 0xff];
+    let mut layer: Vec<Vec<u8>> = vec![vec![]];
+    for _ in 0..3 {
+        let mut next = vec![];
+        for s in &layer {
+            for a in alpha {
+                let mut t = s.clone();
+                t.push(a);
+                next.push(t);
+            }
+        }
+        inputs.extend(next.iter().cloned());
+        layer = next;
+    }
+    // (ii) one or two packed fields with declared length and actual data chosen independently
+    let decl = [0u64, 1, 3, 4, 5, 8, 1 << 32, u64::MAX];
+    let mut fields: Vec<Vec<u8>> = vec![];
+    for d in decl {
+        for actual in 0..6usize {
+            for fill in [0x00u8, 0xEE, 0xff] {
+                let mut f = d.to_be_bytes().to_vec();
+                f.extend(std::iter::repeat(fill).take(actual));
+                fields.push(f);
+            }
+        }
+    }
+    for f in &fields {
+        inputs.push(f.clone());
+    }
+    for (i, f) in fields.iter().enumerate() {
+        for g in fields.iter().skip(i % 7).step_by(7) {
+            let mut t = f.clone();
+            t.extend(g);
+            inputs.push(t);
+        }
+    }
+    let (mut ok, mut err, mut panics) = (0u64, 0u64, 0u64);
+    let mut panicked: Vec<String> = vec![];
+    for v in variants {
+        for a in &inputs {
+            for call in [false, true] {
+                let m = if call {
+                    let (tx, _rx) = ractor::concurrency::oneshot();
+                    SerializedMessage::Call { variant: v.to_string(), args: a.clone(), reply: tx.into(), metadata: None }
+                } else {
+                    SerializedMessage::Cast { variant: v.to_string(), args: a.clone(), metadata: None }
+                };
+                match std::panic::catch_unwind(std::panic::AssertUnwindSafe(|| PMsg::deserialize(m))) {
+                    Ok(Ok(_)) => ok += 1,
+                    Ok(Err(_)) => err += 1,
+                    Err(_) => {
+                        panics += 1;
+                        if panicked.len() < 5 {
+                            panicked.push(format!("{v} call={call} args={a:?}"));
+                        }
+                    }
+                }
+            }
+        }
+    }
+    // round trips of boundary values
+    let mut rts = 0u64;
+    let mut rt_fail: Vec<String> = vec![];
+    macro_rules! ints {
+        ($($t:ty),*) => {$(
+            for v in [<$t>::MIN, <$t>::MAX, 0 as $t, 1 as $t, <$t>::MAX / 2] {
+                rts += 1;
+                if !rt(v) { rt_fail.push(format!("{} {}", stringify!($t), v)); }
+                rts += 1;
+                if !rt(vec![v, <$t>::MIN, <$t>::MAX]) { rt_fail.push(format!("Vec<{}> {}", stringify!($t), v)); }
+            }
+            rts += 1;
+            if !rt(Vec::<$t>::new()) { rt_fail.push(format!("Vec<{}> empty", stringify!($t))); }
+        )*};
+    }
+    ints!(u8, u16, u32, u64, u128, i8, i16, i32, i64, i128);
+    for f in [0.0f64, -0.0, f64::MIN, f64::MAX, f64::INFINITY, f64::NEG_INFINITY, f64::NAN, f64::MIN_POSITIVE, 5e-324] {
+        rts += 2;
+        if f64::from_bytes(f.into_bytes()).to_bits() != f.to_bits() {
+            rt_fail.push(format!("f64 {f}"));
+        }
+        let g = f as f32;
+        if f32::from_bytes(g.into_bytes()).to_bits() != g.to_bits() {
+            rt_fail.push(format!("f32 {g}"));
+        }
+    }
+    for b in [true, false] {
+        rts += 2;
+        if !rt(b) || !rt(vec![b, !b, b]) {
+            rt_fail.push(format!("bool {b}"));
+        }
+    }
+    for c in ['\0', 'a', '\u{7f}', '\u{80}', '\u{7ff}', '\u{800}', '\u{d7ff}', '\u{e000}', '\u{ffff}', '\u{10000}', '\u{10ffff}'] {
+        rts += 3;
+        if !rt(c) || !rt(vec![c, 'x', c]) || !rt(format!("{c}-{c}")) {
+            rt_fail.push(format!("char {:x}", c as u32));
+        }
+    }
+    for s in ["", "a", "h\u{e9}llo", "\u{1F600}\u{10ffff}", "\0\0"] {
+        rts += 1;
+        if !rt(s.to_string()) {
+            rt_fail.push(format!("String {s:?}"));
+        }
+    }
+    rts += 2;
+    if !rt(()) || !rt(vec![0u8; 70000]) {
+        rt_fail.push("unit / large Vec<u8>".into());
+    }
+    // derived enum round trip (cast variants)
+    for m in [PMsg::Tick(0), PMsg::Tick(u32::MAX), PMsg::Text(7, String::new()), PMsg::Text(u32::MAX, "h\u{e9}".into()), PMsg::Boom(3, crate::cluster_io::Touchy(9)), PMsg::Unit] {
+        rts += 1;
+        let n = m.number();
+        let back = m.serialize().ok().and_then(|s| PMsg::deserialize(s).ok());
+        if back.map(|b| b.number()) != Some(n) {
+            rt_fail.push(format!("PMsg #{n}"));
+        }
+    }
+    json!({"family": "codec-extra", "decoder_inputs": inputs.len() * variants.len() * 2, "decoded_ok": ok, "decoded_err": err, "decoder_panics": panics, "panicked_inputs": panicked,
+           "round_trips": rts, "round_trip_failures": rt_fail})
 }
